@@ -274,18 +274,27 @@ func TestVerifC08Align(t *testing.T) {
 	}
 }
 
-// ---------------------------------------------------------------- concurrent use (built with -race)
+// ---------------------------------------------------------------- concurrent use (also built with -race)
 
-// TestVerifC08Race: many goroutines on ONE limiter at frozen clocks ("... whatever the interleaving of
-// concurrent callers").  Token limiter: one caller keeps asking for burst+1 tokens (never grantable),
-// callers with a cancelled context (never granted), the others ask for 1 or 2 tokens; nothing
-// impossible may be granted and the tokens granted within the one caller second must not exceed
-// burst.  Period limiter: concurrent takers on several keys; per key exactly quota-1 Allowed, one
-// HitQuota, the rest OverQuota.  The binary is built with the race detector; a report of it is
-// turned into a disagreement by the check (key C08:data-race).
+// TestVerifC08Race: many goroutines on ONE limiter ("... whatever the interleaving of concurrent
+// callers").  The driver only records; the judge is TLC with spec/TokenLimitConc.tla and
+// spec/PeriodLimitConc.tla (checks/c08.py, conc_validate).
+//
+// A round = a fresh limiter and a sequence of phases separated by barriers.  In front of a phase the
+// clocks move as the case says (token: caller second += dc, server += ds; period: server += d); within
+// a phase all callers run freely at those frozen clocks.  Token limiter: one caller keeps asking for
+// burst+1 tokens (never grantable), `ones` callers ask for 1 token, `twos` for 2, `cancelled` callers
+// use an already cancelled context.  Period limiter: `takers` goroutines per key on `keys` keys.
+// Recorded per phase (one line per round in VERIF_TRACE): the multiset of results, the number of calls
+// that should have reached Redis and the number of script executions the server saw.
 func TestVerifC08Race(t *testing.T) {
 	cases, rep, _, _ := c08Setup(t)
 	defer rep.Close()
+	tr, err := kit.NewTracer(kit.Env("VERIF_TRACE", ""))
+	if err != nil {
+		t.Fatal(err)
+	}
+	defer tr.Close()
 	s, err := miniredis.Run()
 	if err != nil {
 		t.Fatal(err)
@@ -299,108 +308,170 @@ func TestVerifC08Race(t *testing.T) {
 	for _, c := range cases {
 		cfg := c.Steps[0]
 		v := kit.Verdict{Case: c.Index, OK: true}
-		calls := kit.Num(cfg["calls"])
+		per := kit.Num(cfg["per"])
 		switch kit.Str(cfg["kind"]) {
 		case "token":
 			rate, burst := kit.Num(cfg["rate"]), kit.Num(cfg["burst"])
-			ones, twos, dead := kit.Num(cfg["ones"]), kit.Num(cfg["twos"]), kit.Num(cfg["cancelled"])
-			for round := 0; round < kit.Num(cfg["rounds"]) && v.OK; round++ {
+			type caller struct {
+				n    int
+				live bool
+			}
+			callers := []caller{{burst + 1, true}}
+			for i := 0; i < kit.Num(cfg["ones"]); i++ {
+				callers = append(callers, caller{1, true})
+			}
+			for i := 0; i < kit.Num(cfg["twos"]); i++ {
+				callers = append(callers, caller{2, true})
+			}
+			for i := 0; i < kit.Num(cfg["cancelled"]); i++ {
+				callers = append(callers, caller{1 + i%2, false})
+			}
+			for round := 0; round < kit.Num(cfg["rounds"]); round++ {
 				s.FlushAll()
 				tl := NewTokenLimiter(rate, burst, store, fmt.Sprintf("race%d.%d", c.Index, round))
-				now := time.Unix(c08Base+int64(round), 0)
-				var wg sync.WaitGroup
-				var tokens, impossible, deadGranted atomic.Int64
-				run := func(n int, ctx context.Context, onGrant func()) {
-					wg.Add(1)
-					go func() {
-						defer wg.Done()
-						for i := 0; i < calls; i++ {
-							var ok bool
-							if ctx != nil {
-								ok = tl.AllowNCtx(ctx, now, n)
-							} else {
-								ok = tl.AllowN(now, n)
+				now := int64(c08Base)
+				var phases []kit.M
+				for _, tk := range kit.List(cfg["ticks"]) {
+					dc, ds := kit.Num(kit.List(tk)[0]), kit.Num(kit.List(tk)[1])
+					now += int64(dc)
+					if ds > 0 {
+						s.FastForward(time.Duration(ds) * time.Second)
+					}
+					at := time.Unix(now, 0)
+					granted := make([]int, len(callers))
+					start := make(chan struct{})
+					var wg sync.WaitGroup
+					e0 := cs.evals.Load()
+					for ci := range callers {
+						wg.Add(1)
+						go func(ci int) {
+							defer wg.Done()
+							cl := callers[ci]
+							<-start
+							for i := 0; i < per; i++ {
+								var ok bool
+								switch {
+								case !cl.live:
+									ok = tl.AllowNCtx(cancelled, at, cl.n)
+								case (ci+i)%2 == 0:
+									ok = tl.AllowNCtx(context.Background(), at, cl.n)
+								default:
+									ok = tl.AllowN(at, cl.n)
+								}
+								if ok {
+									granted[ci]++
+								}
 							}
-							if ok {
-								onGrant()
+						}(ci)
+					}
+					close(start)
+					wg.Wait()
+					evals := cs.evals.Load() - e0
+					type kind struct {
+						n    int
+						live bool
+					}
+					yes, no, live := map[kind]int{}, map[kind]int{}, 0
+					for ci, cl := range callers {
+						yes[kind{cl.n, cl.live}] += granted[ci]
+						no[kind{cl.n, cl.live}] += per - granted[ci]
+						if cl.live {
+							live += per
+						}
+						if cl.live && cl.n <= 2 {
+							rep.Count("token.tokens-granted", granted[ci]*cl.n)
+						}
+					}
+					obs := []kit.M{}
+					for _, res := range []bool{true, false} {
+						m := no
+						if res {
+							m = yes
+						}
+						ks := make([]kind, 0, len(m))
+						for k := range m {
+							ks = append(ks, k)
+						}
+						sort.Slice(ks, func(a, b int) bool {
+							if ks[a].n != ks[b].n {
+								return ks[a].n < ks[b].n
+							}
+							return ks[a].live && !ks[b].live
+						})
+						for _, k := range ks {
+							if m[k] > 0 {
+								obs = append(obs, kit.M{"n": k.n, "live": k.live, "granted": res, "cnt": m[k]})
 							}
 						}
-					}()
+					}
+					phases = append(phases, kit.M{"dc": dc, "ds": ds, "calls": live, "evals": evals, "obs": obs})
+					v.Steps += len(callers) * per
+					rep.Count("token.calls", len(callers)*per)
+					rep.Count("token.phases", 1)
 				}
-				run(burst+1, nil, func() { impossible.Add(1) })
-				for i := 0; i < ones; i++ {
-					run(1, nil, func() { tokens.Add(1) })
-				}
-				for i := 0; i < twos; i++ {
-					run(2, nil, func() { tokens.Add(2) })
-				}
-				for i := 0; i < dead; i++ {
-					run(1, cancelled, func() { deadGranted.Add(1) })
-				}
-				wg.Wait()
-				v.Steps += (1 + ones + twos + dead) * calls
-				rep.Count("token.calls", (1+ones+twos+dead)*calls)
-				rep.Count("token.tokens-granted", int(tokens.Load()))
-				where := fmt.Sprintf("rate=%d burst=%d, %d concurrent callers on one limiter at one caller second", rate, burst, 1+ones+twos+dead)
-				switch {
-				case impossible.Load() > 0:
-					v.OK, v.Key = false, "C08:token:concurrent:granted-impossible"
-					v.Msg = fmt.Sprintf("%s: a request for burst+1 = %d tokens was granted %d times, specification: never", where, burst+1, impossible.Load())
-				case deadGranted.Load() > 0:
-					v.OK, v.Key = false, "C08:token:concurrent:granted-impossible"
-					v.Msg = fmt.Sprintf("%s: a request with a cancelled context was granted %d times, specification: never", where, deadGranted.Load())
-				case tokens.Load() > int64(burst):
-					v.OK, v.Key = false, "C08:token:concurrent:bound"
-					v.Msg = fmt.Sprintf("%s: %d tokens granted within one second, specification at most burst = %d", where, tokens.Load(), burst)
-				}
+				tr.Emit(kit.M{"kind": "token", "cfg": c.Index, "round": round, "rate": rate, "burst": burst,
+					"callers": len(callers), "phases": phases})
+				rep.Count("token.rounds", 1)
 			}
 		case "period":
 			quota, period, keys, takers := kit.Num(cfg["quota"]), kit.Num(cfg["period"]), kit.Num(cfg["keys"]), kit.Num(cfg["takers"])
-			for round := 0; round < kit.Num(cfg["rounds"]) && v.OK; round++ {
+			for round := 0; round < kit.Num(cfg["rounds"]); round++ {
 				s.FlushAll()
 				pl := NewPeriodLimit(period, quota, store, fmt.Sprintf("race%d.%d:", c.Index, round))
-				counts := make([][4]atomic.Int64, keys)
-				var wg sync.WaitGroup
-				var nerr atomic.Int64
-				for k := 0; k < keys; k++ {
-					for g := 0; g < takers; g++ {
-						wg.Add(1)
-						go func(k, g int) {
-							defer wg.Done()
-							key := fmt.Sprintf("k%d", k)
-							for i := 0; i < calls; i++ {
-								var code int
-								var err error
-								if (g+i)%2 == 0 {
-									code, err = pl.Take(key)
-								} else {
-									code, err = pl.TakeCtx(context.Background(), key)
-								}
-								if err != nil || code < 0 || code > 3 {
-									nerr.Add(1)
-									continue
-								}
-								counts[k][code].Add(1)
-							}
-						}(k, g)
+				var phases []kit.M
+				for _, dv := range kit.List(cfg["advs"]) {
+					d := kit.Num(dv)
+					if d > 0 {
+						s.FastForward(time.Duration(d) * time.Second)
 					}
-				}
-				wg.Wait()
-				v.Steps += keys * takers * calls
-				rep.Count("period.calls", keys*takers*calls)
-				total := int64(takers * calls)
-				for k := 0; k < keys && v.OK; k++ {
-					a, h, o := counts[k][Allowed].Load(), counts[k][HitQuota].Load(), counts[k][OverQuota].Load()
-					if nerr.Load() == 0 && (a != int64(quota-1) || h != 1 || o != total-int64(quota)) {
-						v.OK, v.Key = false, "C08:period:concurrent:codes"
-						v.Msg = fmt.Sprintf("quota=%d, %d concurrent takers x %d takes on key k%d (of %d keys): Allowed x%d, HitQuota x%d, OverQuota x%d; specification %d, 1, %d",
-							quota, takers, calls, k, keys, a, h, o, quota-1, total-int64(quota))
+					counts := make([][4]atomic.Int64, keys)
+					var wg sync.WaitGroup
+					var nerr atomic.Int64
+					start := make(chan struct{})
+					e0 := cs.evals.Load()
+					for k := 0; k < keys; k++ {
+						for g := 0; g < takers; g++ {
+							wg.Add(1)
+							go func(k, g int) {
+								defer wg.Done()
+								key := fmt.Sprintf("k%d", k)
+								<-start
+								for i := 0; i < per; i++ {
+									var code int
+									var err error
+									if (g+i)%2 == 0 {
+										code, err = pl.Take(key)
+									} else {
+										code, err = pl.TakeCtx(context.Background(), key)
+									}
+									if err != nil || code < 0 || code > 3 {
+										nerr.Add(1)
+										continue
+									}
+									counts[k][code].Add(1)
+								}
+							}(k, g)
+						}
 					}
+					close(start)
+					wg.Wait()
+					evals := cs.evals.Load() - e0
+					obs := []kit.M{}
+					for k := 0; k < keys; k++ {
+						obs = append(obs, kit.M{"k": fmt.Sprintf("k%d", k), "m": takers * per, "allowed": counts[k][Allowed].Load(),
+							"hit": counts[k][HitQuota].Load(), "over": counts[k][OverQuota].Load(), "unknown": counts[k][Unknown].Load()})
+					}
+					phases = append(phases, kit.M{"d": d, "calls": keys * takers * per, "evals": evals, "errors": nerr.Load(), "obs": obs})
+					v.Steps += keys * takers * per
+					rep.Count("period.calls", keys*takers*per)
+					rep.Count("period.phases", 1)
 				}
-				if nerr.Load() > 0 && v.OK {
-					v = kit.Verdict{Case: c.Index, Infra: true, Msg: fmt.Sprintf("%d takes returned an error", nerr.Load())}
-				}
+				tr.Emit(kit.M{"kind": "period", "cfg": c.Index, "round": round, "quota": quota, "period": period,
+					"takers": takers, "phases": phases})
+				rep.Count("period.rounds", 1)
 			}
+		default:
+			v = kit.Verdict{Case: c.Index, Infra: true, Msg: "unknown kind " + kit.Str(cfg["kind"])}
 		}
 		rep.Put(v)
 	}
@@ -542,6 +613,7 @@ type c08Server struct {
 	lastEval []string         // arguments of the last EVAL that reached the server
 	byKey    map[string]int64 // EVALs per first key (= "{name}.tokens" for the token limiter)
 	kill     atomic.Bool      // outage without closing the listener: every command's connection is dropped
+	lost     string           // the server could not be brought back after a behaviour (see c08Restart)
 }
 
 func (cs *c08Server) evalsOf(key string) int64 {
@@ -594,13 +666,15 @@ func c08Reachable(s *miniredis.Miniredis) bool {
 // the meantime it fails with "address already in use" - retry for a while before giving up.
 func c08Restart(s *miniredis.Miniredis) error {
 	var err error
-	for i := 0; i < 100; i++ {
+	for deadline := time.Now().Add(15 * time.Second); ; {
 		if err = s.Restart(); err == nil {
 			return nil
 		}
-		time.Sleep(100 * time.Millisecond)
+		if time.Now().After(deadline) {
+			return err
+		}
+		time.Sleep(50 * time.Millisecond)
 	}
-	return err
 }
 
 func monitorIdle(tl *TokenLimiter) bool {
@@ -629,7 +703,7 @@ func runC08TokenRetry(c kit.Case, cs *c08Server, store *redis.Redis, rep *kit.Re
 	var v kit.Verdict
 	for attempt := 0; attempt < 4; attempt++ {
 		v = runC08Token(c, cs, store, rep, attempt)
-		if !(v.Infra && v.Msg == c08Disturbed) {
+		if !(v.Infra && v.Msg == c08Disturbed) || cs.lost != "" {
 			return v
 		}
 		rep.Count("disturbed-reruns", 1)
@@ -658,9 +732,15 @@ func runC08Token(c kit.Case, cs *c08Server, store *redis.Redis, rep *kit.Reporte
 		if !alive {
 			if err := c08Restart(s); err == nil {
 				cs.hook()
+			} else {
+				cs.lost = "miniredis restart: " + err.Error() // no server for the remaining behaviours: harness trouble
+				return
 			}
 		}
-		c08Reachable(s)
+		if !c08Reachable(s) {
+			cs.lost = "server not reachable 30 s after restart"
+			return
+		}
 		kit.WaitFor(c08BarrierTime(), func() bool { return monitorIdle(tl) })
 	}()
 	now := int64(0)
@@ -789,5 +869,10 @@ func TestVerifC08Token(t *testing.T) {
 			store = redis.New(s.Addr()) // a breaker without history for every behaviour
 		}
 		rep.Put(runC08TokenRetry(c, cs, store, rep))
+		if cs.lost != "" {
+			// without a server every further behaviour would "disagree": stop, as harness trouble
+			rep.Put(kit.Verdict{Case: c.Index, Infra: true, Msg: cs.lost})
+			break
+		}
 	}
 }
